@@ -32,7 +32,7 @@ func gen(g *hx.Gen) {
 				if g.Thorough() && len(seq) == 4 && t != r.Intn(6) { // length 4: one table per sequence
 					continue
 				}
-				if !g.Thorough() && len(seq) == 3 && t > 1 && r.Chance(1, 2) { // quick: ~4 of the 6 tables at length 3
+				if !g.Thorough() && len(seq) == 3 && t > 1 && r.Chance(5, 8) { // quick: ~3.5 of the 6 tables at length 3
 					continue
 				}
 				reqs := make([]sauth.Req, len(seq))
@@ -55,7 +55,7 @@ func gen(g *hx.Gen) {
 	}
 	rec(0)
 	// random longer histories over the extended alphabet
-	n := g.Count(5000, 200000)
+	n := g.Count(4000, 200000)
 	for i := 0; i < n; i++ {
 		ln := r.Range(1, 12)
 		reqs := make([]sauth.Req, ln)
